@@ -15,15 +15,27 @@ def kekOf (C : Crypto) (alg sh : Hash) (shared : Bytes) : Bytes :=
 
 theorem dh_ne_ecdh : ecdhPrefix.isPrefixOf dhName = false := by decide
 
-theorem computeKek_dh (C : Crypto) (alg : Hash) (priv pub : Bytes) (k : FfcKey) (hu : ffcKeyUnpack pub = .ok k)
-    (hp : 0 < k.fieldOrder) (hw : k.fieldOrder ≤ 256 ^ k.keyLength) :
-    computeKek C alg dhName priv pub
+/-- the group check added by the fix: the root key's parameters are absent, or name the key's own p and g -/
+def GroupOk (sp : Bytes) (k : FfcKey) : Prop :=
+  sp = [] ∨ ∃ q, ffcParamsUnpack sp = .ok q ∧ q.fieldOrder = k.fieldOrder ∧ q.generator = k.generator
+
+theorem computeKek_dh (C : Crypto) (alg : Hash) (sp priv pub : Bytes) (k : FfcKey) (hu : ffcKeyUnpack pub = .ok k)
+    (hsp : GroupOk sp k) (hy : 1 < k.publicKey ∧ k.publicKey < k.fieldOrder - 1) (hw : k.fieldOrder ≤ 256 ^ k.keyLength) :
+    computeKek C alg dhName sp priv pub
       = .ok (kekOf C alg .sha256 (Py.toBE (Py.powMod k.publicKey (Py.fromBE priv) k.fieldOrder) k.keyLength)) := by
   unfold computeKek
+  have hp : 0 < k.fieldOrder := by omega
   have hne : ¬ k.fieldOrder = 0 := by omega
   have hlt : Py.powMod k.publicKey (Py.fromBE priv) k.fieldOrder < 256 ^ k.keyLength :=
     Nat.lt_of_lt_of_le (Py.powMod_lt _ _ _ hp) hw
-  simp only [if_true, hu, bind, Except.bind, hne, if_false, Py.toBytesBE_ok _ _ hlt, pure, Except.pure, kekOf]
+  have hyn : ¬ ¬ (1 < k.publicKey ∧ k.publicKey < k.fieldOrder - 1) := fun h => h hy
+  rcases hsp with rfl | ⟨q, hq, h1, h2⟩
+  · simp only [if_true, hu, bind, Except.bind, ne_eq, not_true_eq_false, if_false, hyn, hne, Py.toBytesBE_ok _ _ hlt, pure, Except.pure, kekOf]
+  · by_cases hnil : sp = []
+    · subst hnil
+      simp only [if_true, hu, bind, Except.bind, ne_eq, not_true_eq_false, if_false, hyn, hne, Py.toBytesBE_ok _ _ hlt, pure, Except.pure, kekOf]
+    · have hor : ¬ (k.fieldOrder ≠ q.fieldOrder ∨ k.generator ≠ q.generator) := by simp [h1, h2]
+      simp only [if_true, hu, bind, Except.bind, ne_eq, hnil, not_false_eq_true, hq, hor, if_false, hyn, hne, Py.toBytesBE_ok _ _ hlt, pure, Except.pure, kekOf]
 
 theorem computePublicKey_dh (C : Crypto) (priv peer : Bytes) (k : FfcKey) (hu : ffcKeyUnpack peer = .ok k)
     (hp : 0 < k.fieldOrder) :
